@@ -219,7 +219,10 @@ fn build(nm: &Names, cfg: &Cfg) -> SApp {
         for (i, v) in nm.validators.iter().take(2).enumerate() {
             router
                 .staking
-                .add_validator(api, storage, &reg_block, Validator::create(v.clone(), Decimal::percent(nm.commissions[i] as u64), Decimal::percent(100), Decimal::percent(1)))
+                // (in the odd-registration configuration the validators also carry a maximum commission
+                // BELOW their commission: nothing validates the two against each other, and the
+                // commission that counts is the validator's commission)
+                .add_validator(api, storage, &reg_block, Validator::create(v.clone(), Decimal::percent(nm.commissions[i] as u64), Decimal::percent(if cfg.reg_ahead_s > 0 { 5 } else { 100 }), Decimal::percent(1)))
                 .unwrap();
         }
     })
@@ -1563,8 +1566,8 @@ pub fn run_c15(ctx: &Ctx) -> i32 {
     ];
     let cfg3 = Cfg { check_rewards: true, prop: "C15".into(), funds: 10, unbonding: UNBONDING, payout_is_home: false, apr_pct: APR_PCT, reg_ahead_s: 0 };
     let out3 = explore(ctx, &nm, &alpha3, ctx.tier.pick(5, 6), &cfg3, false, 2_000_000);
-    // validators registered with a block half a year AHEAD of the chain's clock (add_validator takes
-    // the block as an argument): nothing accrues, and nothing is shown, before the validator's own
+    // validators registered oddly: with a block half a year AHEAD of the chain's clock (add_validator
+    // takes the block as an argument), and with a maximum commission (5 %) below their commission: nothing accrues, and nothing is shown, before the validator's own
     // time has come; from then on rewards are linear as ever
     let alpha4 = vec![
         SOp::Delegate { d: 0, v: 0, amt: 100, denom: 0 },
